@@ -229,57 +229,34 @@ func runC02Matcher(c *Ctx) {
 		return
 	}
 	fn := FuncName(f)
-	// Extract per matrix char the pattern chars excluded at `return false, nil` blocks.
-	accepted := map[byte]map[byte]bool{}
-	isFalseNil := func(r *ssa.Return) bool {
-		if len(r.Results) != 2 {
-			return false
-		}
-		b, ok := constBool(r.Results[0])
-		return ok && !b && isNilConst(r.Results[1])
-	}
-	for _, r := range returnsOf(f) {
-		if !isFalseNil(r) {
-			continue
-		}
-		var mch byte
-		ex := map[byte]bool{}
-		var mval ssa.Value
-		for _, g := range guardsAtBlock(r.Block()) {
-			bo, ok := g.Cond.(*ssa.BinOp)
-			if !ok {
-				continue
-			}
-			k, isC := constInt(bo.Y)
-			if !isC || k < 0 || k > 255 {
-				continue
-			}
-			switch {
-			case bo.Op == token.EQL && g.Truth:
-				// m == 'X' (the switch tag is the rune from the range)
-				if _, isExtract := bo.X.(*ssa.Extract); isExtract {
-					mch = byte(k)
-					mval = bo.X
-				}
-			case bo.Op == token.NEQ && g.Truth:
-				ex[byte(k)] = true
-			}
-		}
-		_ = mval
-		if mch != 0 && len(ex) > 0 {
-			accepted[mch] = ex
-		}
-	}
+	// RelateMatches interpreted on the strings mmmmmmmmm / ppppppppp for every matrix
+	// character m and pattern character p: which pattern characters each matrix
+	// entry accepts (however the per-entry decision is written or factored out)
 	want := map[byte]string{'F': "*F", '0': "*0T", '1': "*1T", '2': "*2T"}
 	for _, m := range []byte{'F', '0', '1', '2'} {
-		var got []string
-		for ch := range accepted[m] {
-			got = append(got, string(ch))
+		got, undec := "", ""
+		for _, p := range []byte("*012FT") {
+			mdl := &Model{Num: map[string]float64{}, Bool: map[string]bool{}, Missing: map[string]bool{}}
+			it := &k4interp{p: c.P, m: mdl, mem: map[string]k4val{}}
+			res, err := it.call(f, []k4val{{kind: 4, s: strings.Repeat(string(m), 9)}, {kind: 4, s: strings.Repeat(string(p), 9)}}, nil)
+			if err != nil || len(res) != 2 || res[0].kind != 1 {
+				undec = fmt.Sprintf("matrix %q pattern %q: %v %v %s", string(m), string(p), err, res, trunc(missingList(mdl)))
+				break
+			}
+			if res[1].String() != "nil" {
+				undec = fmt.Sprintf("matrix %q pattern %q: an error is returned for valid input (%s)", string(m), string(p), trunc(res[1].String()))
+				break
+			}
+			if res[0].b {
+				got += string(p)
+			}
 		}
-		sort.Strings(got)
-		g := strings.Join(got, "")
 		construct := fmt.Sprintf("pattern characters accepted for matrix entry %q", string(m))
-		c.Check(g == want[m], f.Pos(), fn, construct, "accepts exactly {"+want[m]+"}", fmt.Sprintf("accepts {%s}, the DE-9IM semantics require {%s}", g, want[m]))
+		if undec != "" {
+			c.Undecided(f.Pos(), fn, construct, "cannot interpret: "+undec)
+			continue
+		}
+		c.Check(got == want[m], f.Pos(), fn, construct, "accepts exactly {"+want[m]+"}", fmt.Sprintf("accepts {%s}, the DE-9IM semantics require {%s}", got, want[m]))
 	}
 	// length checks dominate the loop
 	okLen := 0
